@@ -89,6 +89,9 @@ type Session struct {
 
 	// tornDown is set once the session's resources have been released
 	tornDown bool
+	// terminating is set by the first SessionTeardown.TerminateSession call that takes the
+	// session on; a concurrent or repeated call finds it set and has nothing left to do
+	terminating bool
 
 	mu sync.RWMutex
 }
